@@ -140,18 +140,34 @@ def r_fanout(ctx, repo):
         raise AnalysisError('YAMLObjectMetaclass.__init__ has vanished')
     mf = meta.methods['__init__']
     cfg = CFG(mf.node)
-    edges = []
+    from . import match as M
+    in_edges, nn_edges, get_edges = [], [], []
     for n in cfg.nodes:
         if n.kind == 'test':
-            txt = norm(n.ast)
-            if "'yaml_tag' in" in txt and 'is not None' in txt:
-                edges.append((n, True))
+            if M.match(M.compile_pattern("'yaml_tag' in __d")[1], n.ast, {}):
+                in_edges.append((n, True))
+            elif M.match(M.compile_pattern("'yaml_tag' not in __d")[1], n.ast, {}):
+                in_edges.append((n, False))
+            elif M.match(M.compile_pattern("__d['yaml_tag'] is not None")[1], n.ast, {}):
+                nn_edges.append((n, True))
+            elif M.match(M.compile_pattern("__d['yaml_tag'] is None")[1], n.ast, {}):
+                nn_edges.append((n, False))
+            elif M.match(M.compile_pattern("__d.get('yaml_tag') is not None")[1], n.ast, {}) or \
+                    M.match(M.compile_pattern("__d.get('yaml_tag', None) is not None")[1], n.ast, {}):
+                get_edges.append((n, True))
+            elif M.match(M.compile_pattern("__d.get('yaml_tag') is None")[1], n.ast, {}):
+                get_edges.append((n, False))
+
+    def tag_guarded(n):
+        if get_edges and cfg.guarded(n, edges=get_edges):
+            return True
+        return bool(in_edges) and bool(nn_edges) and cfg.guarded(n, edges=in_edges) and cfg.guarded(n, edges=nn_edges)
     for c in A.func_calls(mf.node):
         if isinstance(c.func, ast.Attribute) and c.func.attr in ('add_constructor', 'add_representer',
                                                                   'add_multi_constructor', 'add_multi_representer'):
             st = A.enclosing_stmt(c)
             nodes = cfg.nodes_of(st)
-            if edges and all(cfg.guarded(n, edges=edges) for n in nodes):
+            if nodes and all(tag_guarded(n) for n in nodes):
                 rule.ok(mf.loc(c), '%s only when the class body sets yaml_tag' % norm(c.func))
             else:
                 rule.fail('%s|unguarded|%s' % (mf.qualname, norm(c.func)), mf.module.rel, c.lineno, mf.qualname,
